@@ -310,7 +310,7 @@ func runC25(c *mon.Ctx) {
 	grid, n := c25Grid()
 	runFamilies(c, h, []famRun{
 		{grid, n, 1},
-		{pctFamily(c, "c25-pct", "C25"), c.N(2000, 120000), 1},
+		{pctFamily(c, "c25-pct", "C25"), c.N(2000, 70000), 1},
 		{freeFamily(c, "c25-free", "C25"), c.N(300, 20000), workersFree()},
 	})
 	c.Exhaustive(false)
@@ -414,7 +414,7 @@ func runC26(c *mon.Ctx) {
 	_, ex := runEnum(c, h, "c26-enum2", ecfg, eb, []string{"start:0", "start:1"}, c.N(5, 7), c.N(1500, 60000), probes{PostCloseDo: true})
 	c.Exhaustive(ex)
 	runFamilies(c, h, []famRun{
-		{pctFamily(c, "c26-pct", "C26"), c.N(1500, 100000), 1},
+		{pctFamily(c, "c26-pct", "C26"), c.N(1500, 70000), 1},
 		{freeFamily(c, "c26-free", "C26"), c.N(500, 30000), workersFree()},
 	})
 	h.finish(hRetry, hCtxDone)
